@@ -203,10 +203,11 @@ func c06FunctionRule(p *Prog, r *Report, fam map[*ssa.Function]bool) {
 	r.check(len(tb) == 0, rule, "parser.nonIdempotentFuncs", p.Pos(p.Global("parser", "nonIdempotentFuncs").Pos()), strings.Join(names, ","), strings.Join(tb, " || "))
 
 	// the term function that consults the table
-	isNon := p.Func("parser", "isNonIdempotentFunc")
+	nonMember := membershipRole(p, p.Global("parser", "nonIdempotentFuncs"))
+	isNon := nonMember.fn
 	var termFn *ssa.Function
 	for f := range fam {
-		if callsDirectly(f, func(c ssa.CallInstruction) bool { return c.Common().StaticCallee() == isNon }) {
+		if callsDirectly(f, func(c ssa.CallInstruction) bool { _, ok := nonMember.isCall(c); return ok }) {
 			termFn = f
 		}
 	}
@@ -232,7 +233,7 @@ func c06FunctionRule(p *Prog, r *Report, fam map[*ssa.Function]bool) {
 						SetCallResult(okSt, call, avTup(avSymbol("ks"), avSymbol("fn"), top, AV{K: avNil}))
 						SetCallResult(bad, call, avTup(top, top, top, AV{K: avNonNil}))
 						return []*State{okSt, bad}
-					case callee == isNon:
+					case func() bool { _, ok := nonMember.isCall(call); return ok }():
 						if a := sm.eval(st, args[0]); a.K == avSym && a.S == "fn" {
 							return set(avBool(N))
 						}
@@ -267,32 +268,9 @@ func c06FunctionRule(p *Prog, r *Report, fam map[*ssa.Function]bool) {
 		}
 	}
 	r.check(len(bad) == 0, rule, "parser."+termFn.Name(), p.Pos(termFn.Pos()), "6 atom assignments", strings.Join(dedupe(bad), " || "))
-	// isNonIdempotentFunc: membership through equal over the table
-	g := p.Global("parser", "nonIdempotentFuncs")
-	uses, eq := false, false
-	eachInstr(isNon, func(in ssa.Instruction) {
-		if ld, ok := in.(*ssa.UnOp); ok && sameGlobal(ld.X, g) {
-			uses = true
-		}
-		if c, ok := in.(*ssa.Call); ok && callIsMethod(c, "parser", "Identifier", "equal") && c.Call.Args[0] == ssa.Value(isNon.Params[0]) {
-			eq = true
-		}
-	})
-	// returns false only after the loop (no early false)
-	okRet := true
-	eachInstr(isNon, func(in ssa.Instruction) {
-		if ret, ok := in.(*ssa.Return); ok {
-			if c, ok := ret.Results[0].(*ssa.Const); ok && c.Value != nil && !constant.BoolVal(c.Value) {
-				// a 'return false' must not be inside the loop body guarded by a failed comparison
-				for _, ct := range dominatingConds(ret.Block()) {
-					if cc, ok := ct.Cond.(*ssa.Call); ok && callIsMethod(cc, "parser", "Identifier", "equal") && !ct.Truth {
-						okRet = false
-					}
-				}
-			}
-		}
-	})
-	r.check(uses && eq && okRet, rule, "parser.isNonIdempotentFunc", p.Pos(isNon.Pos()), "", "is not a membership test over the table through Identifier.equal (or gives up after the first entry)")
+	// membership through equal over the table
+	mprob := nonMember.check(p)
+	r.check(len(mprob) == 0, rule, "parser.nonIdempotentFuncs:membership", p.Pos(isNon.Pos()), "membership through Identifier.equal in "+isNon.Name(), "is not a membership test over the table through Identifier.equal: "+strings.Join(mprob, " || "))
 }
 
 func c06TypeRules(p *Prog, r *Report) {
@@ -393,7 +371,31 @@ func c06Lwt(p *Prog, r *Report, fam map[*ssa.Function]bool) {
 			fatalf("anchor: parser.%s not found", name)
 		}
 		s := newSim(p)
-		s.Model = familyModel(p, fam, nil)
+		// a helper that holds the scan for the IF token is looked through
+		scanHelper := func(f *ssa.Function) bool {
+			if f == nil || f == fn || f.Blocks == nil || f.Parent() != nil || !p.InRepo(f) {
+				return false
+			}
+			has := false
+			eachInstr(f, func(in ssa.Instruction) {
+				if bo, ok := in.(*ssa.BinOp); ok && bo.Op == token.EQL {
+					for _, side := range []ssa.Value{bo.X, bo.Y} {
+						if c, ok := side.(*ssa.Const); ok && c.Value != nil && typeIs(c.Type(), "parser", "token") && c.Value.ExactString() == tkIf {
+							has = true
+						}
+					}
+				}
+			})
+			return has
+		}
+		baseModel := familyModel(p, fam, nil)
+		s.Model = func(sm *Sim, st *State, call ssa.CallInstruction, callee *ssa.Function) []*State {
+			if scanHelper(callee) {
+				return nil
+			}
+			return baseModel(sm, st, call, callee)
+		}
+		s.Inline = scanHelper
 		cmp := 0
 		s.OnBranch = func(st *State, cond ssa.Value, truth bool) {
 			if bo, ok := cond.(*ssa.BinOp); ok && bo.Op == token.EQL {
